@@ -14,6 +14,11 @@ from pDESy.model.base_project import BaseProject
 UNITS = (1, 2, 3, 5, 60)
 
 
+def _ratio(u_sub, u_parent):
+    """sub-project unit / parent unit, both as the timedelta objects hold them (microsecond resolution)"""
+    return datetime.timedelta(minutes=u_sub).total_seconds() / datetime.timedelta(minutes=u_parent).total_seconds()
+
+
 def make_sub(tmpdir, d, absence, how, unit_min, tag, post_insert=None):
     """a sub-project of pure duration d (one task, one worker), simulated as requested and saved"""
     sp = {"tasks": [{"name": "S0", "work": float(d)}], "links": [], "unit_min": unit_min,
@@ -43,6 +48,10 @@ def parent_spec(position, path, u_parent, team_targets_sub=False):
         names = ["A0", "C0", "B0", "Z0"]
         return {"tasks": tasks, "links": links, "unit_min": u_parent,
                 "teams": [{"name": "TM0", "targets": [0, 1, 2, 4], "workers": [{"name": "W%d" % i, "skills": {n: 1.0}, "cost": 1.0} for i, n in enumerate(names)]}]}
+    elif position == "after-ss-pred-extend":
+        # P0 (work 3) -SS-> SUB, the link declared with extend_input_task_list([...], SS): SUB may start one step after P0 has started
+        return {"tasks": [{"name": "P0", "work": 3.0}, sub], "links": [[0, 1, "SS"]], "link_api": "extend", "unit_min": u_parent,
+                "teams": [{"name": "TM0", "targets": [0], "workers": [{"name": "W0", "skills": {"P0": 1.0}, "cost": 1.0}]}]}
     elif position == "two-tails":
         # P0 -> SUB (due 12) and P0 -> Q0 (due 9): two tail tasks with different due times (used with the backward run)
         tasks, links, tg = [{"name": "P0", "work": 2.0}, dict(sub, due=12), {"name": "Q0", "work": 1.0, "due": 9}], [[0, 1, "FS"], [0, 2, "FS"]], [0, 2]
@@ -109,7 +118,7 @@ def one(tmpdir, d, absence, how, remove, u_sub, u_parent, position, tag, prior=N
     if abs(t.default_work_amount - dur) > 1e-9:
         out.append(("C20:work-amount-is-not-the-sub-project-duration" + (":absence-removed" if remove else ""), {"default_work_amount": t.default_work_amount, "expected": dur, "sub_time": sub_time, "absence": list(absence)}))
         return out, None
-    MT = int(math.ceil(dur * u_sub / float(u_parent))) + 60  # room for the whole sub-project plus predecessors, successors and absence steps
+    MT = int(math.ceil(dur * _ratio(u_sub, u_parent))) + 60  # room for the whole sub-project plus predecessors, successors and absence steps
     if extra == "relate-twice":
         # the unit is related more than once on the same task object (another time grid first, the real one last)
         t.set_work_amount_progress_of_unit_step_time(datetime.timedelta(minutes=u_parent * 3))
@@ -144,7 +153,7 @@ def one(tmpdir, d, absence, how, remove, u_sub, u_parent, position, tag, prior=N
                     done += 1
                 k += 1
             start = k
-        want = int(math.ceil(dur * u_sub / float(u_parent) - 1e-9))
+        want = int(math.ceil(dur * _ratio(u_sub, u_parent) - 1e-9))
         expect, k = [], start
         while len(expect) < want:
             if k not in parent_abs:
@@ -175,7 +184,7 @@ def one(tmpdir, d, absence, how, remove, u_sub, u_parent, position, tag, prior=N
                     done += 1
                 k += 1
             start = k
-        want = int(math.ceil(dur * u_sub / float(u_parent) - 1e-9))
+        want = int(math.ceil(dur * _ratio(u_sub, u_parent) - 1e-9))
         prog = [k for k in range(len(rem)) if (rem[k - 1] if k else float(dur)) - rem[k] > 1e-9]
         det = {"sub_duration": dur, "u_sub": u_sub, "u_parent": u_parent, "position": position, "parent_absence": list(parent_abs), "remaining_log": rem[:12], "progress_steps": prog, "expected_start": start, "expected_steps": want}
         if int(m.project.status) != 1:
@@ -189,7 +198,7 @@ def one(tmpdir, d, absence, how, remove, u_sub, u_parent, position, tag, prior=N
             m.project.backward_simulate(max_time=MT, considering_due_time_of_tail_tasks=True, absence_time_list=[])
         except Exception as e:
             return out + [("C20:parent-backward_simulate-raised:%s" % type(e).__name__, {"error": repr(e)})], None
-        want = int(math.ceil(dur * u_sub / float(u_parent) - 1e-9))
+        want = int(math.ceil(dur * _ratio(u_sub, u_parent) - 1e-9))
         log = [int(s) for s in t.state_record_list]
         ks = [k for k, s in enumerate(log) if s == S.T_WORKING]
         T = m.project.time
@@ -209,10 +218,12 @@ def one(tmpdir, d, absence, how, remove, u_sub, u_parent, position, tag, prior=N
         m.project.simulate(max_time=MT, absence_time_list=[])
     except Exception as e:
         return out + [("C20:parent-simulate-raised:%s" % type(e).__name__, {"error": repr(e)})], None
-    want = int(math.ceil(dur * u_sub / float(u_parent) - 1e-9))
+    want = int(math.ceil(dur * _ratio(u_sub, u_parent) - 1e-9))
     log = [int(s) for s in t.state_record_list]
     ks = [k for k, s in enumerate(log) if s == S.T_WORKING]
     start = 2 if position == "after-pred" else 0
+    if position == "after-ss-pred-extend":
+        start = 1
     if position == "mixed-inputs":
         # as soon as the dependencies allow: the step after the SS predecessor's first WORKING step, and after the FS predecessor has finished
         lb = [int(s) for s in m.byname["B0"].state_record_list]
@@ -249,7 +260,7 @@ def one_chain(tmpdir, d, u_sub, u_parent, n, tag):
     for t in m.tasks:
         t.set_all_attributes_from_json(remove_absence_time_list=False)
         t.set_work_amount_progress_of_unit_step_time(m.project.unit_timedelta)
-    want = int(math.ceil(d * u_sub / float(u_parent) - 1e-9))
+    want = int(math.ceil(d * _ratio(u_sub, u_parent) - 1e-9))
     try:
         m.project.simulate(max_time=want + 30, absence_time_list=[])
     except Exception as e:
@@ -353,6 +364,13 @@ def items(tier):
                     for remove in (True, False):
                         for us, up in ((1, 1), (3, 2), (2, 5)):
                             out.append((dl, ab, "success", remove, us, up, "after-pred", None))
+        for us, up in ((1, 1), (3, 2), (2, 3)):
+            out.append((d, (), "success", True, us, up, "after-ss-pred-extend", None))
+        # units that are not whole numbers of minutes (an hour divided by 7, by 3; 90 seconds): durations on and off the parent's step boundaries
+        for us, up in ((60.0 / 7, 60), (20.0 / 3, 20), (1.5, 1), (60.0 / 7, 60.0 / 7), (60, 60.0 / 7)):
+            for dd in (d, 7 * d):
+                out.append((dd, (), "success", True, us, up, "alone", None))
+                out.append((dd, (), "success", True, us, up, "after-pred", None))
         for us, up in ((1, 1), (3, 2), (2, 3)):
             out.append((d, (), "success", True, us, up, "two-tails", None, False, None, "backward-due"))
             for nchain in (3, 8, 9, 11):
